@@ -244,6 +244,25 @@ fn entry(key: &str, t: &[i64]) -> i128 {
         "poly_index_mut" => { let mut p = polyn(u(t[0])); let s = bits_p(&p);
             let r = catch_unwind(AssertUnwindSafe(|| { p[u(t[1])] = 7.0; })); if r.is_err() { if bits_p(&p) == s { 1 } else { 2 } } else { 0 } }
         "poly_roots_degree" => { let p = polyn(u(t[0])); let s = bits_p(&p); run(|| p.roots(false), || bits_p(&p) == s, yes, false) }
+        // ---------------------------------------------------------------- std-checked accessors (no explicit guard)
+        "vec_index_mut" => { let mut a = vecn(u(t[0])); let sa = bits_v(&a);
+            let r = catch_unwind(AssertUnwindSafe(|| { a[u(t[1])] = 7.0; })); if r.is_err() { if bits_v(&a) == sa { 1 } else { 2 } } else { 0 } }
+        "vec_swap" => { let mut a = vecn(u(t[0])); let sa = bits_v(&a);
+            let r = catch_unwind(AssertUnwindSafe(|| a.swap(u(t[1]), u(t[2])))); if r.is_err() { if bits_v(&a) == sa { 1 } else { 2 } } else { 0 } }
+        "vec_insert" => { let mut a = vecn(u(t[0])); let sa = bits_v(&a);
+            let r = catch_unwind(AssertUnwindSafe(|| a.insert(u(t[1]), 7.0))); if r.is_err() { if bits_v(&a) == sa { 1 } else { 2 } } else { 0 } }
+        "vec_pop" => { let mut a = vecn(u(t[0])); let sa = bits_v(&a);
+            let r = catch_unwind(AssertUnwindSafe(|| a.pop())); if r.is_err() { if bits_v(&a) == sa { 1 } else { 2 } } else { 0 } }
+        "mesh1_index" => { let m = mesh1(u(t[0]), 2); let s = bits_m1(&m); run(|| m[u(t[1])].clone(), || bits_m1(&m) == s, yes, false) }
+        "mesh1_index_mut" => { let mut m = mesh1(u(t[0]), 2); let s = bits_m1(&m);
+            let r = catch_unwind(AssertUnwindSafe(|| { m[u(t[1])] = vecn(2); })); if r.is_err() { if bits_m1(&m) == s { 1 } else { 2 } } else { 0 } }
+        "mesh1_coord" => { let m = mesh1(u(t[0]), 2); let s = bits_m1(&m); run(|| m.coord(u(t[1])), || bits_m1(&m) == s, yes, false) }
+        "mesh2_coord" => { let m = mesh2(u(t[0]), u(t[1]), 1); let s = bits_m2(&m); run(|| m.coord(u(t[2]), u(t[3])), || bits_m2(&m) == s, yes, false) }
+        "mesh2_cross_section_xnode" => { let m = mesh2(u(t[0]), u(t[1]), 2); let s = bits_m2(&m); run(|| bits_m1(&m.cross_section_xnode(u(t[2]))), || bits_m2(&m) == s, yes, false) }
+        "mesh2_cross_section_ynode" => { let m = mesh2(u(t[0]), u(t[1]), 2); let s = bits_m2(&m); run(|| bits_m1(&m.cross_section_ynode(u(t[2]))), || bits_m2(&m) == s, yes, false) }
+        "mesh2_apply" => { let mut m = mesh2(u(t[0]), u(t[1]), u(t[2])); let s = bits_m2(&m);
+            let r = catch_unwind(AssertUnwindSafe(|| m.apply(&|x, y| x + 2.0 * y, u(t[3])))); if r.is_err() { if bits_m2(&m) == s { 1 } else { 2 } } else { 0 } }
+        "band_index_rows" => { let b = bandn(u(t[0]), u(t[1]), u(t[2])); let s = bits_b(&b); run(|| b[(u(t[3]), u(t[3]))], || bits_b(&b) == s, yes, false) }
         _ => panic!("harness: unknown guard entry {}", key),
     }
 }
